@@ -113,7 +113,30 @@ pub fn cases(tier: Tier) -> Vec<Case> {
             }
         }
     }
-    v
+    // from a non-initial state: the live segment is full, so the first append of the suffix rolls it over
+    let full_segment = [Op::Append(TxS::single(0, 0, Size::Block)), Op::Append(TxS::single(0, 0, Size::Block))];
+    let mut pre = Vec::new();
+    let (cfgs, depth): (Vec<DbCfg>, usize) = if tier.is_thorough() {
+        (vec![DbCfg::simple(MIN_SEG, true, SyncMode::EveryWrite), DbCfg::simple(MIN_SEG, false, deferred), DbCfg::simple(MIN_SEG, true, deferred)], 4)
+    } else {
+        (vec![DbCfg::simple(MIN_SEG, true, deferred), DbCfg::simple(MIN_SEG, false, SyncMode::EveryWrite)], 3)
+    };
+    for cfg in cfgs {
+        for suffix in sequences(&alphabet(false), depth) {
+            if suffix.len() < 2 {
+                continue;
+            }
+            // quick: depth 3 only behind the transaction that rolls the segment over and then fails half-way
+            if !tier.is_thorough() && suffix.len() == 3 && suffix[0] != alphabet(false)[7] {
+                continue;
+            }
+            let mut ops = full_segment.to_vec();
+            ops.extend(suffix);
+            pre.push(Case { cfg: cfg.clone(), ops });
+        }
+    }
+    pre.extend(v);
+    pre
 }
 
 /// After an acknowledged append: the segment file that holds the transaction must have been
